@@ -298,6 +298,12 @@ func histDocs() map[string]*sbom.Document {
 		"D3-deps":    mk("3", []string{"a", "b", "c"}, []*sbom.Edge{e("a", sbom.Edge_contains, "b", "c"), e("b", sbom.Edge_dependsOn, "c")}, "a"),
 		"D4-other":   mk("4", []string{"b", "d"}, []*sbom.Edge{e("b", sbom.Edge_contains, "d")}, "b"),
 		"D5-noroots": mk("5", []string{"a", "b"}, nil, ""),
+		// the same identifiers as D2 with the containment reversed, nested below a non-root node, and cyclic:
+		// state left behind by one serialization (placement, ancestry, component caches) must not steer another
+		"D6-tree-reversed": mk("6", []string{"a", "b", "c"}, []*sbom.Edge{e("a", sbom.Edge_contains, "c"), e("c", sbom.Edge_contains, "b")}, "a"),
+		"D7-deep":          mk("7", []string{"r", "a", "b", "c"}, []*sbom.Edge{e("r", sbom.Edge_contains, "a"), e("a", sbom.Edge_contains, "b"), e("b", sbom.Edge_contains, "c")}, "r"),
+		"D8-deep-reversed": mk("8", []string{"r", "a", "b", "c"}, []*sbom.Edge{e("r", sbom.Edge_contains, "c"), e("c", sbom.Edge_contains, "b"), e("b", sbom.Edge_contains, "a")}, "r"),
+		"D9-cycle":         mk("9", []string{"r", "a", "b"}, []*sbom.Edge{e("a", sbom.Edge_contains, "b"), e("b", sbom.Edge_contains, "a"), e("r", sbom.Edge_dependsOn, "a")}, "r"),
 	}
 }
 
